@@ -32,7 +32,7 @@ func VerifC05_e1_do() {
 		detail = &d
 	}
 	to, te, fa := nondetBool("timeout"), nondetBool("temporary"), nondetBool("fault")
-	kind := nondetChoice("error-kind", 10)
+	kind := nondetChoice("error-kind", 11)
 	var ret error
 	switch kind {
 	case 0:
@@ -53,6 +53,8 @@ func VerifC05_e1_do() {
 		ret = fmt.Errorf("ctx: %w", &svc.CustomErr{Name: "conflict", Code: code, Detail: detail})
 	case 8: // custom error type whose name is not declared for this method
 		ret = &svc.CustomErr{Name: "weird", Code: code}
+	case 10:
+		ret = &svc.CustomErr{Name: "locked", Code: code, Detail: detail}
 	case 9: // declared service error carrying flags
 		e := svc.MakeNotFound(errors.New(msg))
 		e.Timeout, e.Temporary, e.Fault = to, te, fa
@@ -78,6 +80,8 @@ func VerifC05_e1_do() {
 		wantStatus, wantName = http.StatusConflict, "conflict"
 	case 3:
 		wantStatus, wantName = http.StatusConflict, "gone"
+	case 10:
+		wantStatus, wantName = http.StatusLocked, "locked"
 	case 4:
 		wantStatus, wantName = http.StatusTeapot, "teapot"
 	case 5:
@@ -133,7 +137,7 @@ func VerifC05_e1_do() {
 				verifAssert("client:service-error-flags", se.Timeout == to && se.Temporary == te && se.Fault == fa)
 			}
 		}
-	case 2, 3, 7:
+	case 2, 3, 7, 10:
 		ce, ok := cerr.(*svc.CustomErr)
 		verifAssert("client:custom-error-type", ok)
 		if ok {
